@@ -18,9 +18,21 @@ import (
 
 var log = logging.Logger("autoconf")
 
-// writeOwnerOnlyFile writes data to a file with owner-only permissions (0600)
+// writeOwnerOnlyFile writes data to a file with owner-only permissions (0600).
+// The data goes to a temporary file in the same directory which is then renamed
+// into place, so an interrupted write neither leaves a truncated file under the
+// final name nor destroys an existing one.
 func writeOwnerOnlyFile(filename string, data []byte) error {
-	return os.WriteFile(filename, data, filePermOwnerReadWrite)
+	tmp := filename + ".tmp"
+	if err := os.WriteFile(tmp, data, filePermOwnerReadWrite); err != nil {
+		os.Remove(tmp)
+		return err
+	}
+	if err := os.Rename(tmp, filename); err != nil {
+		os.Remove(tmp)
+		return err
+	}
+	return nil
 }
 
 const (
